@@ -222,4 +222,212 @@ theorem effect_ltu64 : OpKind.ltu64.Effect := by cmp_effect
 theorem effect_les64 : OpKind.les64.Effect := by cmp_effect
 theorem effect_leu64 : OpKind.leu64.Effect := by cmp_effect
 
+/-! ### effect lemmas: division -/
+
+theorem cdq_dividend (a : BitVec 32) : (a.sshiftRight 31).toInt * 2 ^ 32 + (a.toNat : Int) = a.toInt := by
+  rw [BitVec.toInt_sshiftRight, Int.shiftRight_eq_div_pow, BitVec.toInt_eq_toNat_cond]
+  have := a.isLt
+  split <;> omega
+
+theorem cqo_dividend (a : BitVec 64) : (a.sshiftRight 63).toInt * 2 ^ 64 + (a.toNat : Int) = a.toInt := by
+  rw [BitVec.toInt_sshiftRight, Int.shiftRight_eq_div_pow, BitVec.toInt_eq_toNat_cond]
+  have := a.isLt
+  split <;> omega
+
+theorem setWidth_32_64_32 (x : BitVec 32) : (x.setWidth 64).setWidth 32 = x := by
+  apply BitVec.eq_of_toNat_eq; have := x.isLt; simp
+
+theorem effect_divs32 : OpKind.divs32.Effect := by
+  intro s
+  rw [run_eq_execs OpKind.divs32.seq [.cdq, .idiv .w32 .rdi] rfl]
+  have hdi : ((s.setW .rdx .w32 ((s.getW .rax .w32).sshiftRight 31)).getW .rdi .w32) = (s.get .rdi).setWidth 32 := rfl
+  have hax : ((s.setW .rdx .w32 ((s.getW .rax .w32).sshiftRight 31)).getW .rax .w32) = (s.get .rax).setWidth 32 := rfl
+  have hdx : ((s.setW .rdx .w32 ((s.getW .rax .w32).sshiftRight 31)).getW .rdx .w32) = ((s.get .rax).setWidth 32).sshiftRight 31 :=
+    setWidth_32_64_32 _
+  simp only [OpKind.fn, execs, exec, hdi, hax, hdx, cdq_dividend]
+  generalize (BitVec.setWidth 32 (s.get Reg.rax)) = a
+  generalize (BitVec.setWidth 32 (s.get Reg.rdi)) = d
+  by_cases c1 : d.toInt = 0
+  · simp only [c1, if_true]
+  · by_cases c2 : a.toInt.tdiv d.toInt < -(2 ^ 31) ∨ a.toInt.tdiv d.toInt ≥ 2 ^ 31
+    · simp only [c1, c2, if_true, if_false]
+    · simp only [c1, c2, if_false]
+      refine ⟨_, rfl, ?_⟩
+      simp [State.setW, State.get, State.set]
+
+theorem effect_mods32 : OpKind.mods32.Effect := by
+  intro s
+  rw [run_eq_execs OpKind.mods32.seq [.cdq, .idiv .w32 .rdi, .mov .w64 (.reg .rdx) (.reg .rax)] rfl]
+  have hdi : ((s.setW .rdx .w32 ((s.getW .rax .w32).sshiftRight 31)).getW .rdi .w32) = (s.get .rdi).setWidth 32 := rfl
+  have hax : ((s.setW .rdx .w32 ((s.getW .rax .w32).sshiftRight 31)).getW .rax .w32) = (s.get .rax).setWidth 32 := rfl
+  have hdx : ((s.setW .rdx .w32 ((s.getW .rax .w32).sshiftRight 31)).getW .rdx .w32) = ((s.get .rax).setWidth 32).sshiftRight 31 :=
+    setWidth_32_64_32 _
+  simp only [OpKind.fn, execs, exec, hdi, hax, hdx, cdq_dividend]
+  generalize (BitVec.setWidth 32 (s.get Reg.rax)) = a
+  generalize (BitVec.setWidth 32 (s.get Reg.rdi)) = d
+  by_cases c1 : d.toInt = 0
+  · simp only [c1, if_true]
+  · by_cases c2 : a.toInt.tdiv d.toInt < -(2 ^ 31) ∨ a.toInt.tdiv d.toInt ≥ 2 ^ 31
+    · simp only [c1, c2, if_true, if_false]
+    · simp only [c1, c2, if_false]
+      refine ⟨_, rfl, ?_⟩
+      simp [State.setW, State.get, State.set, State.src, State.getW]
+
+theorem effect_divs64 : OpKind.divs64.Effect := by
+  intro s
+  rw [run_eq_execs OpKind.divs64.seq [.cqo, .idiv .w64 .rdi] rfl]
+  have hdi : ((s.set .rdx ((s.get .rax).sshiftRight 63)).get .rdi) = s.get .rdi := rfl
+  have hax : ((s.set .rdx ((s.get .rax).sshiftRight 63)).get .rax) = s.get .rax := rfl
+  have hdx : ((s.set .rdx ((s.get .rax).sshiftRight 63)).get .rdx) = (s.get .rax).sshiftRight 63 := rfl
+  simp only [OpKind.fn, execs, exec, hdi, hax, hdx, cqo_dividend]
+  generalize (s.get Reg.rax) = a
+  generalize (s.get Reg.rdi) = d
+  by_cases c1 : d.toInt = 0
+  · simp only [c1, if_true]
+  · by_cases c2 : a.toInt.tdiv d.toInt < -(2 ^ 63) ∨ a.toInt.tdiv d.toInt ≥ 2 ^ 63
+    · simp only [c1, c2, if_true, if_false]
+    · simp only [c1, c2, if_false]
+      refine ⟨_, rfl, ?_⟩
+      simp [State.get, State.set]
+
+theorem effect_mods64 : OpKind.mods64.Effect := by
+  intro s
+  rw [run_eq_execs OpKind.mods64.seq [.cqo, .idiv .w64 .rdi, .mov .w64 (.reg .rdx) (.reg .rax)] rfl]
+  have hdi : ((s.set .rdx ((s.get .rax).sshiftRight 63)).get .rdi) = s.get .rdi := rfl
+  have hax : ((s.set .rdx ((s.get .rax).sshiftRight 63)).get .rax) = s.get .rax := rfl
+  have hdx : ((s.set .rdx ((s.get .rax).sshiftRight 63)).get .rdx) = (s.get .rax).sshiftRight 63 := rfl
+  simp only [OpKind.fn, execs, exec, hdi, hax, hdx, cqo_dividend]
+  generalize (s.get Reg.rax) = a
+  generalize (s.get Reg.rdi) = d
+  by_cases c1 : d.toInt = 0
+  · simp only [c1, if_true]
+  · by_cases c2 : a.toInt.tdiv d.toInt < -(2 ^ 63) ∨ a.toInt.tdiv d.toInt ≥ 2 ^ 63
+    · simp only [c1, c2, if_true, if_false]
+    · simp only [c1, c2, if_false]
+      refine ⟨_, rfl, ?_⟩
+      simp [State.get, State.set, State.src, State.getW, State.setW]
+
+theorem effect_divu32 : OpKind.divu32.Effect := by
+  intro s
+  rw [run_eq_execs OpKind.divu32.seq [.mov .w32 (.imm 0) (.reg .rdx), .div .w32 .rdi] rfl]
+  simp only [OpKind.fn, execs, exec, State.dst, State.src]
+  have hdi : ((s.setW .rdx .w32 (BitVec.ofInt 32 0)).getW .rdi .w32) = (s.get .rdi).setWidth 32 := rfl
+  have hax : ((s.setW .rdx .w32 (BitVec.ofInt 32 0)).getW .rax .w32) = (s.get .rax).setWidth 32 := rfl
+  have hdx : ((s.setW .rdx .w32 (BitVec.ofInt 32 0)).getW .rdx .w32) = 0#32 := rfl
+  simp only [hdi, hax, hdx]
+  generalize (BitVec.setWidth 32 (s.get Reg.rax)) = a
+  generalize (BitVec.setWidth 32 (s.get Reg.rdi)) = d
+  have hq : ¬ ((0#32).toNat * 2 ^ 32 + a.toNat) / d.toNat ≥ 2 ^ 32 := by
+    have := Nat.div_le_self a.toNat d.toNat
+    have := a.isLt
+    simp; omega
+  by_cases c1 : d.toNat = 0
+  · simp only [c1, if_true]
+  · simp only [c1, hq, if_false]
+    refine ⟨_, rfl, ?_⟩
+    simp [State.setW, State.get, State.set]
+
+
+theorem effect_modu32 : OpKind.modu32.Effect := by
+  intro s
+  rw [run_eq_execs OpKind.modu32.seq [.mov .w32 (.imm 0) (.reg .rdx), .div .w32 .rdi, .mov .w64 (.reg .rdx) (.reg .rax)] rfl]
+  simp only [OpKind.fn, execs, exec, State.dst, State.src]
+  have hdi : ((s.setW .rdx .w32 (BitVec.ofInt 32 0)).getW .rdi .w32) = (s.get .rdi).setWidth 32 := rfl
+  have hax : ((s.setW .rdx .w32 (BitVec.ofInt 32 0)).getW .rax .w32) = (s.get .rax).setWidth 32 := rfl
+  have hdx : ((s.setW .rdx .w32 (BitVec.ofInt 32 0)).getW .rdx .w32) = 0#32 := rfl
+  simp only [hdi, hax, hdx]
+  generalize (BitVec.setWidth 32 (s.get Reg.rax)) = a
+  generalize (BitVec.setWidth 32 (s.get Reg.rdi)) = d
+  have hq : ¬ ((0#32).toNat * 2 ^ 32 + a.toNat) / d.toNat ≥ 2 ^ 32 := by
+    have := Nat.div_le_self a.toNat d.toNat
+    have := a.isLt
+    simp; omega
+  by_cases c1 : d.toNat = 0
+  · simp only [c1, if_true]
+  · simp only [c1, hq, if_false]
+    refine ⟨_, rfl, ?_⟩
+    simp [State.setW, State.get, State.set, State.getW]
+
+theorem effect_divu64 : OpKind.divu64.Effect := by
+  intro s
+  rw [run_eq_execs OpKind.divu64.seq [.mov .w64 (.imm 0) (.reg .rdx), .div .w64 .rdi] rfl]
+  simp only [OpKind.fn, execs, exec, State.dst, State.src]
+  have hdi : ((s.setW .rdx .w64 (BitVec.ofInt 64 0)).get .rdi) = s.get .rdi := rfl
+  have hax : ((s.setW .rdx .w64 (BitVec.ofInt 64 0)).get .rax) = s.get .rax := rfl
+  have hdx : ((s.setW .rdx .w64 (BitVec.ofInt 64 0)).get .rdx) = 0#64 := rfl
+  simp only [hdi, hax, hdx]
+  generalize (s.get Reg.rax) = a
+  generalize (s.get Reg.rdi) = d
+  have hq : ¬ ((0#64).toNat * 2 ^ 64 + a.toNat) / d.toNat ≥ 2 ^ 64 := by
+    have := Nat.div_le_self a.toNat d.toNat
+    have := a.isLt
+    simp; omega
+  by_cases c1 : d.toNat = 0
+  · simp only [c1, if_true]
+  · simp only [c1, hq, if_false]
+    refine ⟨_, rfl, ?_⟩
+    simp [State.setW, State.get, State.set]
+
+theorem effect_modu64 : OpKind.modu64.Effect := by
+  intro s
+  rw [run_eq_execs OpKind.modu64.seq [.mov .w64 (.imm 0) (.reg .rdx), .div .w64 .rdi, .mov .w64 (.reg .rdx) (.reg .rax)] rfl]
+  simp only [OpKind.fn, execs, exec, State.dst, State.src]
+  have hdi : ((s.setW .rdx .w64 (BitVec.ofInt 64 0)).get .rdi) = s.get .rdi := rfl
+  have hax : ((s.setW .rdx .w64 (BitVec.ofInt 64 0)).get .rax) = s.get .rax := rfl
+  have hdx : ((s.setW .rdx .w64 (BitVec.ofInt 64 0)).get .rdx) = 0#64 := rfl
+  simp only [hdi, hax, hdx]
+  generalize (s.get Reg.rax) = a
+  generalize (s.get Reg.rdi) = d
+  have hq : ¬ ((0#64).toNat * 2 ^ 64 + a.toNat) / d.toNat ≥ 2 ^ 64 := by
+    have := Nat.div_le_self a.toNat d.toNat
+    have := a.isLt
+    simp; omega
+  by_cases c1 : d.toNat = 0
+  · simp only [c1, if_true]
+  · simp only [c1, hq, if_false]
+    refine ⟨_, rfl, ?_⟩
+    simp [State.setW, State.get, State.set, State.getW]
+
+/-- **effect of every operator sequence, for every machine state** (including exactly when the CPU faults) -/
+theorem OpKind.effect (k : OpKind) : k.Effect := by
+  cases k
+  case add32 => exact effect_add32
+  case sub32 => exact effect_sub32
+  case mul32 => exact effect_mul32
+  case and32 => exact effect_and32
+  case or32 => exact effect_or32
+  case xor32 => exact effect_xor32
+  case add64 => exact effect_add64
+  case sub64 => exact effect_sub64
+  case mul64 => exact effect_mul64
+  case and64 => exact effect_and64
+  case or64 => exact effect_or64
+  case xor64 => exact effect_xor64
+  case divs32 => exact effect_divs32
+  case divu32 => exact effect_divu32
+  case divs64 => exact effect_divs64
+  case divu64 => exact effect_divu64
+  case mods32 => exact effect_mods32
+  case modu32 => exact effect_modu32
+  case mods64 => exact effect_mods64
+  case modu64 => exact effect_modu64
+  case eq32 => exact effect_eq32
+  case ne32 => exact effect_ne32
+  case lts32 => exact effect_lts32
+  case ltu32 => exact effect_ltu32
+  case les32 => exact effect_les32
+  case leu32 => exact effect_leu32
+  case eq64 => exact effect_eq64
+  case ne64 => exact effect_ne64
+  case lts64 => exact effect_lts64
+  case ltu64 => exact effect_ltu64
+  case les64 => exact effect_les64
+  case leu64 => exact effect_leu64
+  case shl32 => exact effect_shl32
+  case shr32 => exact effect_shr32
+  case sar32 => exact effect_sar32
+  case shl64 => exact effect_shl64
+  case shr64 => exact effect_shr64
+  case sar64 => exact effect_sar64
+
 end ChibiVerif.C01
